@@ -128,9 +128,56 @@ def gen(repo):
                  "std::char::from_u32(n)", "if !s.contains('\\\\')"]:
         if need not in une:
             raise ExtractError("unescape_filename no longer contains `%s`" % need)
-    out = ["(* GENERATED by props/C01/extract.py from crates/core/src/{index/indexer.rs,blob/packer.rs,vfs.rs,backend/node.rs} - do not edit *)",
+    # blob/tree.rs: what the path lookup compares and how it searches
+    tr = read(repo, "crates/core/src/blob/tree.rs")
+    def classify(body, what):
+        b = re.sub(r"\s+", "", body)
+        if ".find(|node|node.name()==" in b and "binary_search" not in b:
+            return (False, False)
+        if re.search(r"\.find\(\|node\|node\.name(\.as_str\(\))?==", b) and "escape_filename(" in b and "binary_search" not in b:
+            return (False, True)
+        m = re.search(r"binary_search_by(_key)?\(\|node\|(.*?)\)\.", b)
+        if m:
+            arg = m.group(2)
+            if "node.name()" in arg: return (True, False)
+            if "node.name" in arg and "escape_filename(" in b: return (True, True)
+        raise ExtractError("%s: the lookup of a path component is neither `.find(|node| node.name() == ..)` nor a recognised variant" % what)
+    lk = classify(fn_body(tr, "node_from_path"), "Tree::node_from_path")
+    lk2 = classify(fn_body(tr, "find_node_from_component"), "find_nodes_from_path")
+    nfp = re.sub(r"\s+", "", fn_body(tr, "node_from_path"))
+    nfp = nfp.replace("letmuttree=", "lettree=")
+    for need in ["node.subtree=Some(id);", "forpinpath.components()", "letid=node.subtree.ok_or_else(", "lettree=Self::from_backend(be,index,id)?;"]:
+        if need not in nfp:
+            raise ExtractError("Tree::node_from_path no longer contains `%s`" % need)
+    nxt = re.sub(r"\s+", "", fn_body(tr, "next", 0))
+    for need in ["letpath=self.path.join(node.name());", "self.path.push(node.name());", "mem::replace(&mutself.inner,tree.nodes.into_iter())", "self.inner=self.open_iterators.pop()?;"]:
+        if need not in nxt:
+            raise ExtractError("NodeStreamer::next no longer contains `%s`" % need)
+    meta["lookup"] = {"binary_search": lk[0], "compares_stored": lk[1], "find_nodes_binary_search": lk2[0], "find_nodes_compares_stored": lk2[1]}
+    # times: capture in the mapper, set_times in the local destination
+    mp = re.sub(r"\s+", "", fn_body(read(repo, "crates/core/src/backend/ignore/mapper.rs"), "map_entry"))
+    if "letmtime=m.modified().ok().and_then(|t|Timestamp::try_from(t).ok());" not in mp:
+        raise ExtractError("mapper.rs map_entry no longer captures mtime as m.modified() -> Timestamp::try_from")
+    stt = re.sub(r"\s+", "", fn_body(read(repo, "crates/core/src/backend/local_destination.rs"), "set_times"))
+    if "FileTime::from_system_time(atime.into())" in stt and "FileTime::from_system_time(mtime.into())" in stt and "from_unix_time" not in stt:
+        direct = False
+    elif "from_unix_time(" in stt and "as_second()" in stt and "subsec_nanosecond().unsigned_abs()" in stt and "from_system_time" not in stt:
+        direct = True
+    else:
+        raise ExtractError("LocalDestination::set_times converts the Timestamp in an unrecognised way")
+    if "letatime=meta.atime.unwrap_or(mtime);" not in stt or "set_symlink_file_times(" not in stt:
+        raise ExtractError("LocalDestination::set_times no longer has the modelled shape")
+    meta["restore_time_direct"] = direct
+    out = ["(* GENERATED by props/C01/extract.py from crates/core/src/{index/indexer.rs,blob/packer.rs,vfs.rs,backend/node.rs,blob/tree.rs,backend/ignore/mapper.rs,backend/local_destination.rs} - do not edit *)",
            "(* Indexer.indexed : BTreeSet<%s> *)" % ty,
-           "Definition indexed_typed : bool := %s." % ("true" if typed else "false"), ""]
+           "Definition indexed_typed : bool := %s." % ("true" if typed else "false"),
+           "(* Tree::node_from_path / find_nodes_from_path: how a path component is looked up *)",
+           "Definition lookup_binary_search : bool := %s." % ("true" if lk[0] else "false"),
+           "Definition lookup_compares_stored : bool := %s." % ("true" if lk[1] else "false"),
+           "Definition find_nodes_binary_search : bool := %s." % ("true" if lk2[0] else "false"),
+           "Definition find_nodes_compares_stored : bool := %s." % ("true" if lk2[1] else "false"),
+           "(* LocalDestination::set_times: FileTime built from the Timestamp fields instead of via SystemTime *)",
+           "Definition restore_time_direct : bool := %s." % ("true" if direct else "false"), ""]
     meta["esc_table"] = table
     return "\n".join(out), meta
 
